@@ -1477,7 +1477,61 @@ fn case_rng(seed: u64, fam: u64, idx: usize) -> Rng {
     r.fork()
 }
 
+/// rows far larger than any internal buffer (32 KiB … 300 KiB) between ordinary rows: every row
+/// comes out exactly once, whole, in input order, in every output mode
+fn check_huge_rows(ctx: &mut Ctx) {
+    let n = ctx.budget(64, 1200);
+    for _ in 0..n {
+        let mut r = ctx.rng.fork();
+        let nrows = 3 + r.below(6);
+        let mut input: Vec<u8> = vec![];
+        let mut sizes: Vec<usize> = vec![];
+        for i in 0..nrows {
+            let big = r.chance(40);
+            let len = if big { *r.pick(&[31000usize, 33000, 40000, 41000, 65535, 65536, 65537, 70000, 131072, 300000]) } else { r.below(40) };
+            sizes.push(len);
+            let fill: String = std::iter::repeat(*r.pick(&["x", "ab", "é"])).take(len).collect::<String>();
+            input.extend(format!("{{\"id\":{},\"pad\":\"{}\"}}\n", i, fill).into_bytes());
+        }
+        let mode = *r.pick(&["json", "logfmt", "legacy", "format={id} {pad}"]);
+        let q = *r.pick(&["* | json", "* | json | where id >= 0", "* | json | length(pad) as l"]);
+        let key = format!("huge-rows:{}:{}:{:?}", q, mode, sizes);
+        let info = json!({"query": q, "mode": mode, "row_pad_lengths": sizes});
+        let res = imp::run(q, &input, mode, 30);
+        if !res.compiled || res.panicked.is_some() || res.hung {
+            ctx.case("huge-rows", &key, "viol", json!({"class": "", "what": "run did not complete", "panic": res.panicked, "case": info}));
+            continue;
+        }
+        // the ids in the order they appear in the output (each output row carries `id` exactly once)
+        let text = String::from_utf8_lossy(&res.stdout).to_string();
+        let ids: Vec<i64> = text
+            .lines()
+            .filter_map(|l| {
+                let l = l.trim_start();
+                let rest = if mode == "json" {
+                    l.split("\"id\":").nth(1)
+                } else if mode == "logfmt" {
+                    l.split("id=").nth(1)
+                } else if mode == "legacy" {
+                    l.split("[id=").nth(1)
+                } else {
+                    Some(l)
+                }?;
+                rest.chars().take_while(|c| c.is_ascii_digit()).collect::<String>().parse().ok()
+            })
+            .collect();
+        let want: Vec<i64> = (0..nrows as i64).collect();
+        let lines_out = text.lines().count();
+        if ids != want || lines_out != nrows {
+            ctx.case("huge-rows", &key, "viol", json!({"class": "", "what": format!("rows lost, duplicated or reordered: ids in the output {:?} ({} lines, {} bytes), expected {:?}", ids, lines_out, res.stdout.len(), want), "case": info}));
+        } else {
+            ctx.case("huge-rows", &key, "pass", info);
+        }
+    }
+}
+
 pub fn check(ctx: &mut Ctx) {
+    check_huge_rows(ctx);
     let thorough = ctx.thorough();
     let only = replay_key(ctx);
     // 1. promptness / chunking / model conformance
